@@ -1710,7 +1710,7 @@ func TestVerifC14(t *testing.T) {
 	batchCache, closeBatch := verifC14OpenCache(t, "seqbatch", true)
 	defer closeBatch()
 
-	total := vc.N(8000, 200000)
+	total := vc.N(6000, 200000)
 	for i := 0; i < total; i++ {
 		if !vc.Mine(i) {
 			continue
